@@ -14,6 +14,9 @@ let proto_of = function
   | "dkls23" -> Some PDkls23
   | "lindell22" -> Some PLindell22
   | "boldyreva" -> Some PBoldyreva
+  | "canetti" -> Some PCanetti
+  | "aor" -> Some PAor
+  | "dkls23-softspoken" -> Some PSoftspoken
   | _ -> None
 
 let show = function
